@@ -15,16 +15,16 @@ Theorem readback_both :
     (forall w v, fdom w v = true -> exists v', fparse w (ffmt w v) = Some v' /\ feq narrow32 w v v') ->
     forall x, value_leaf_item x = true -> dom_item false no_plain x = true ->
     forall text, text = to_sml ffmt quote x \/ text = encode_default ffmt quote x ->
-    forall input pre ws ws' c rest',
-      Forall is_ws ws -> Forall is_ws ws' -> follow c ->
+    forall input dp pre ws ws' c rest',
+      dp <= max_list_depth -> Forall is_ws ws -> Forall is_ws ws' -> follow c ->
       input = pre ++ ws ++ text ++ ws' ++ c :: rest' ->
       exists x' q,
-        parse_item fparse input 1 (mkst pre (ws ++ text ++ ws' ++ c :: rest')) = POk x' (mkst q (c :: rest'))
+        parse_item fparse input 1 dp (mkst pre (ws ++ text ++ ws' ++ c :: rest')) = POk x' (mkst q (c :: rest'))
         /\ input = q ++ c :: rest' /\ item_eqv narrow32 x x'.
 Proof.
-  intros ffmt quote fparse narrow32 L1 L2 x VL D text Ht input pre ws ws' c rest' F1 F2 Fc Hin.
+  intros ffmt quote fparse narrow32 L1 L2 x VL D text Ht input dp pre ws ws' c rest' Hdp F1 F2 Fc Hin.
   assert (E : text = encode_default ffmt quote x).
   { destruct Ht as [->| ->]; [apply to_sml_eq_encode_default|reflexivity]. }
   subst text.
-  apply (readback_default ffmt quote fparse no_plain narrow32 L1 L2 ltac:(discriminate) x VL D input pre ws ws' c rest' F1 F2 Fc Hin).
+  apply (readback_default ffmt quote fparse no_plain narrow32 L1 L2 ltac:(discriminate) x VL D input dp pre ws ws' c rest' Hdp F1 F2 Fc Hin).
 Qed.
